@@ -98,7 +98,7 @@ def bits(v):
 
 # ------------------------------------------------------------------ hang-safe pre-screening
 
-def prescreen(exe, lines, chunk=64, chunk_timeout=60, single_timeout=6, max_hung=3):
+def prescreen(exe, lines, chunk=64, chunk_timeout=180, single_timeout=30, max_hung=3):
     """Run the op lines once in chunks with a time limit, so that a run on which the (possibly modified)
     solver does not terminate cannot block the whole check.  → (kept lines, hung lines)."""
     if not exe:
@@ -204,6 +204,7 @@ def c13_part(op_line, out_line, st):
 REL = 2.0 ** -40
 from fractions import Fraction as Fr   # noqa: E402
 import math                            # noqa: E402
+TINY = Fr(2) ** -1040    # subnormal floor: one ulp of a subnormal exceeds any relative bound (NoProgress runs reach φγ ~ 1e-312)
 
 
 class ExactQ:
@@ -396,11 +397,11 @@ def _consistency(flavor, op, cbs, *, pid=None, bump=lambda k, n=1: None, rewritt
             v = cb['psi']
             if v != v and (nan_inj or fixed_fista):
                 bump('psi_nan_injected_or_not_evaluated')
-            elif not math.isfinite(v) or abs(Fr(v) - psi) > Fr(REL) * Mpsi:
+            elif not math.isfinite(v) or abs(Fr(v) - psi) > Fr(REL) * Mpsi + TINY:
                 fail(k, cb, 'psi', f'reported ψ = {v!r}, ψ at the reported x is {float(psi)!r}')
             else:
                 bump('psi_at_x_exact')
-            gbad = [i for i in range(n) if not math.isfinite(g[i]) or abs(Fr(g[i]) - grad[i]) > Fr(REL) * Mg[i]]
+            gbad = [i for i in range(n) if not math.isfinite(g[i]) or abs(Fr(g[i]) - grad[i]) > Fr(REL) * Mg[i] + TINY]
             if gbad:
                 i = gbad[0]
                 fail(k, cb, 'grad', f'reported ∇ψ[{i}] = {g[i]!r}, ∇ψ at the reported x is {float(grad[i])!r}')
@@ -416,7 +417,7 @@ def _consistency(flavor, op, cbs, *, pid=None, bump=lambda k, n=1: None, rewritt
             ok = True
             for i in range(n):
                 tol = 4 * Fr(_ulp(x[i], float(G * grad[i]), float(G * Q.lam[i]), Q.ex.Clb[i], Q.ex.Cub[i], xh[i])) \
-                    + G * Fr(REL) * Mg[i]
+                    + G * Fr(REL) * Mg[i] + TINY
                 if abs(Fr(xh[i]) - xh_ex[i]) > tol:
                     ok = False
                     fail(k, cb, 'prox', f'reported x̂[{i}] = {xh[i]!r}, but prox_γ(x − γ∇ψ(x))[{i}] = '
@@ -445,7 +446,7 @@ def _consistency(flavor, op, cbs, *, pid=None, bump=lambda k, n=1: None, rewritt
                 M = Mpsi + hx + pTp / (2 * G) + sum(abs(P[i]) * Mg[i] for i in range(n))
                 if M > Fr(10) ** 300:
                     bump('consistency_skipped_overflow_range')
-                elif not math.isfinite(v) or abs(Fr(v) - want) > (Fr(REL) + 8 * (n + 4) * Fr(EPS)) * M:
+                elif not math.isfinite(v) or abs(Fr(v) - want) > (Fr(REL) + 8 * (n + 4) * Fr(EPS)) * M + TINY:
                     fail(k, cb, 'fbe', f'reported φγ = {v!r}, but ψ(x) + h(x̂) + ‖p‖²/(2γ) + ∇ψ(x)ᵀp = {float(want)!r} '
                                        f'(ψ, ∇ψ exact at the reported x; x̂, p, γ as reported)')
                 else:
@@ -458,7 +459,7 @@ def _consistency(flavor, op, cbs, *, pid=None, bump=lambda k, n=1: None, rewritt
             v = cb['psi_hat']
             if v != v and (nan_inj or fixed_fista):
                 bump('psihat_nan_injected_or_not_evaluated')
-            elif not math.isfinite(v) or abs(Fr(v) - psih) > Fr(REL) * Mpsih:
+            elif not math.isfinite(v) or abs(Fr(v) - psih) > Fr(REL) * Mpsih + TINY:
                 fail(k, cb, 'psihat', f'reported ψ(x̂) = {v!r}, ψ at the reported x̂ is {float(psih)!r}')
             else:
                 bump('psihat_exact')
@@ -468,7 +469,7 @@ def _consistency(flavor, op, cbs, *, pid=None, bump=lambda k, n=1: None, rewritt
                 bump('yhat_eager_workspace_by_design')
             elif len(yh) == Q.ex.m and Q.ex.m:
                 ybad = [j for j in range(Q.ex.m)
-                        if not math.isfinite(yh[j]) or abs(Fr(yh[j]) - yh_ex[j]) > Fr(REL) * Myh[j]]
+                        if not math.isfinite(yh[j]) or abs(Fr(yh[j]) - yh_ex[j]) > Fr(REL) * Myh[j] + TINY]
                 if ybad:
                     j = ybad[0]
                     fail(k, cb, 'yhat', f'reported ŷ[{j}] = {yh[j]!r}, ŷ at the reported x̂ is {float(yh_ex[j])!r}')
@@ -477,7 +478,7 @@ def _consistency(flavor, op, cbs, *, pid=None, bump=lambda k, n=1: None, rewritt
             gh = cb.get('grad_psi_hat') or []
             if cb.get('have_gh') and len(gh) == n and (not final_only_gh or (last and need_gh)):
                 hb = [i for i in range(n)
-                      if not math.isfinite(gh[i]) or abs(Fr(gh[i]) - gradh[i]) > Fr(REL) * Mgh[i]]
+                      if not math.isfinite(gh[i]) or abs(Fr(gh[i]) - gradh[i]) > Fr(REL) * Mgh[i] + TINY]
                 if hb:
                     i = hb[0]
                     cb['_gradhat_bad'] = True
